@@ -9,6 +9,7 @@ import EasyMl.Lemmas.Tensor
 import EasyMl.Lemmas.Mappings
 import EasyMl.Lemmas.ShapeIter
 import EasyMl.Lemmas.TensorChecked
+import EasyMl.Lemmas.AccessView
 
 namespace EasyMl.C01
 open EasyMl EasyMl.Spec
@@ -489,5 +490,36 @@ example : validateDimensionsChecked 255 [("a", 16), ("b", 16)] 0 = some .wrongCo
 example : validateDimensionsChecked 255 [("a", 15), ("b", 17)] 255 = none := by decide
 example : checkedElements 255 [("a", 16), ("b", 16), ("c", 0)] = none := by decide
 example : getIndexDirectChecked 255 [14, 300] (computeStrides [("a", 15), ("b", 17)]) [("a", 15), ("b", 17)] = some none := by decide
+
+/-! ### composition with C02: a `TensorAccess` of a tensor is C02's `View.access` node -/
+
+/-- `TensorAccess::try_from(&tensor, names)` of this model and C02's `View.mkAccess` over the
+    tensor leaf are the same construction (same acceptance, same mapping tables), report the same
+    shape and read the same element at every index tuple — so every C02 / C09 theorem about views
+    (cell equations, injectivity, layouts, iterators over views) applies to C01's accesses, and
+    C01's by-name characterisation (`access_get_eq_lookupByName`) describes C02's node. -/
+theorem access_is_view [Inhabited ν] (id : Nat) (t : Tensor ν α) (names : List ν) :
+    View.mkAccess (View.tensor id t) names =
+      ((t.indexBy names).map fun a => View.access (View.tensor id t) a.mapping) ∧
+    ∀ a, t.indexBy names = some a →
+      (View.access (View.tensor id t) a.mapping).shape = a.shape ∧
+      ∀ idx, (View.access (View.tensor id t) a.mapping).read idx = .ok (a.get idx) := by
+  refine ⟨mkAccess_tensor id t names, fun a ha => ?_⟩
+  have hsrc : a.source = t := by
+    unfold Tensor.indexBy at ha
+    split at ha
+    · simp only [Option.some.injEq] at ha; rw [← ha]
+    · simp at ha
+  refine ⟨by simp [View.shape, Access.shape, hsrc], fun idx => ?_⟩
+  rw [View.read_access_tensor]
+  simp [Access.get, hsrc]
+
+/-- Non-vacuity: the 3-cycle access of a 2×3×2 tensor as a C02 view. -/
+example :
+    ∃ t a, Tensor.tryFrom [("a", 2), ("b", 3), ("c", 2)] (List.range 12) = some t ∧
+      t.indexBy ["c", "a", "b"] = some a ∧
+      (View.access (View.tensor 0 t) a.mapping).read [1, 0, 2] = .ok (some 5) := by
+  refine ⟨_, _, rfl, rfl, ?_⟩
+  rw [View.read_access_tensor]; rfl
 
 end EasyMl.C01
